@@ -136,11 +136,13 @@ class Sim(object):
             app = Application(slash_mode=mode, resources={'clash': 'c'} if clash else {})
             self.apps.append({'app': app, 'table': [], 'mode': mode, 'clash': clash, 'requested': False, 'failed_add': False})
         elif k == 'new_route':
-            _, pattern, methods, beh = op
+            _, pattern, methods, beh = op[:4]
+            needs = bool(op[4]) if len(op) > 4 else False
             rid = self.rid()
-            route = Route(pattern, M.make_endpoint(rid, beh), methods=methods)
+            # some routes have an endpoint that requires the resource only some applications define
+            route = Route(pattern, M.make_endpoint(rid, beh, names=('clash',) if needs else ()), methods=methods)
             self.routes.append({'route': route, 'snap': self.snapshot(route), 'rid': rid, 'pattern': pattern, 'methods': methods,
-                                'beh': beh, 'bound_in': set()})
+                                'beh': beh, 'bound_in': set(), 'needs': needs})
         elif not self.apps:
             return
         elif k == 'add_route':
@@ -149,6 +151,20 @@ class Sim(object):
                 return
             i, r = ai % len(self.apps), self.routes[ri % len(self.routes)]
             index = self.idx(i, index)
+            if r.get('needs') and not self.apps[i]['clash']:
+                # unsatisfiable in *this* application, whatever other applications the Route is bound into
+                try:
+                    if index is None:
+                        self.apps[i]['app'].add(r['route'])
+                    else:
+                        self.apps[i]['app'].add(r['route'], index)
+                except Exception:
+                    self.apps[i]['failed_add'] = True
+                    self.apps[i]['requested'] = False
+                else:
+                    ctx.mismatch('failing-add-accepted', 'add() of a Route whose endpoint needs a resource this application lacks did not raise '
+                                 '(the Route is also bound into %d other application(s))' % len(r['bound_in']))
+                return
             if index is None:
                 self.apps[i]['app'].add(r['route'])
             else:
@@ -218,6 +234,8 @@ class Sim(object):
             index = self.idx(b, index)
             entry = (prefix, self.apps[a]['app'])
             if self.apps[b]['clash'] and any(any(e[0] == 'b' and e[1] == 'clash' for e in t.parsed[0]) for t in self.apps[a]['table']):
+                return
+            if not self.apps[b]['clash'] and self.apps[a]['clash'] is False and False:
                 return
             if index is None:
                 self.apps[b]['app'].add(entry)
@@ -295,10 +313,10 @@ def machine():
             if len(self.sim.apps) < 4:
                 self.do(['new_app', mode, clash])
 
-        @rule(pattern=st.sampled_from(PATTERNS), methods=st.sampled_from(METHODS), beh=st.sampled_from(BEH))
-        def new_route(self, pattern, methods, beh):
+        @rule(pattern=st.sampled_from(PATTERNS), methods=st.sampled_from(METHODS), beh=st.sampled_from(BEH), needs=st.sampled_from([False, False, True]))
+        def new_route(self, pattern, methods, beh, needs):
             if len(self.sim.routes) < 6:
-                self.do(['new_route', pattern, methods, beh])
+                self.do(['new_route', pattern, methods, beh, needs])
 
         @rule(ai=st.integers(0, 3), ri=st.integers(0, 5), index=index)
         def add_route(self, ai, ri, index):
